@@ -12,6 +12,7 @@ pub use rayon;
 pub use serde_json::{self, Value, json};
 
 pub mod refmac;
+pub mod reftopo;
 pub mod refwire;
 
 #[derive(Clone, Copy, Debug, PartialEq, Eq)]
